@@ -60,6 +60,19 @@ QUERIES = [["init"], ["simy0"], ["classes"], ["pvals"], ["args", None, "0"],
            ["args", [["x", "5"]], "3"], ["rhs", [["x", "5"]], "3"], ["call", "3", ["5"]]]
 
 
+def _tally(ctx, q, r):
+    """distribution of what the generator reaches: query kind x outcome class of the real code"""
+    if isinstance(r, dict) and "err" in r:
+        cls = r["err"][0]
+    elif isinstance(r, dict) and "ok" in r:
+        cls = "ok"
+    else:
+        cls = "parts"
+    d = ctx.extra_cov.setdefault("reached_outcomes", {})
+    key = f"{q[0]}:{cls}"
+    d[key] = d.get(key, 0) + 1
+
+
 def judge_case(ctx, case, R, M, S):
     if any(s == "inexact" for s in S):
         ctx.hist["skipped_inexact"] = ctx.hist.get("skipped_inexact", 0) + 1
@@ -70,6 +83,7 @@ def judge_case(ctx, case, R, M, S):
     nq = len(case["queries"])
     for i in range(len(R)):
         q = case["queries"][i % nq]
+        _tally(ctx, q, R[i])
         # a query is judged together with everything asked before it (the history matters)
         sub = {"content": c, "queries": case["queries"][: (i % nq) + 1], "decl_seed": case.get("decl_seed", 0)}
         if i >= nq:
